@@ -147,3 +147,28 @@ def instance_store(idx, cls, selfkey="self"):
         if k.startswith(selfkey + ".") and not isinstance(v, Residual):
             out[k] = copy.deepcopy(v)
     return out
+
+
+def sym_result(idx, cls, meth, *, args=None, store=None, handlers=None, domains=None, inline=(), selfkey="self", unknown="residual", types=None):
+    """interpret cls.meth (property getters too) and return (paths); convenience for 'what does this accessor return'"""
+    from sa.absint import Interp
+    fi = idx.method(cls, meth)
+    t = {selfkey: cls}
+    t.update(types or {})
+    it = Interp(idx, types=t, unknown_calls=unknown, handlers=handlers or {}, domains=domains or {}, inline=set(inline))
+    return fi, it.run_all(fi, args=dict(args or {}), store=dict(store or {}), selfkey=selfkey)
+
+
+def returns(idx, cls, meth, want, **kw):
+    """(ok, detail): the accessor has exactly one path and returns `want` (a value, or a string to compare with a residual's text)"""
+    from sa.absint import Residual
+    fi, ps = sym_result(idx, cls, meth, **kw)
+    if len(ps) != 1 or ps[0].result[0] != "return":
+        return fi, False, f"{[p.result for p in ps]}"
+    v = ps[0].result[1]
+    if isinstance(v, Residual) and isinstance(want, str):
+        return fi, v.text == want, f"returns `{v.text}`, expected `{want}`"
+    return fi, v == want, f"returns {v!r}, expected {want!r}"
+
+
+JOIN = {"os.path.join": lambda i, c, r, a, k: "/".join(str(x) for x in a)}
